@@ -46,7 +46,8 @@ def validate(module, events, name, per_shard=20000, timeout=1800, env=None, cfg=
         # stateful traces: a shard boundary may only fall where the group id changes
         shards, cur = [], []
         for ev in events:
-            if len(cur) >= size and ev.get(group) != cur[-1].get(group):
+            # (group 0 / absent marks stateless events: a boundary may fall anywhere between them)
+            if len(cur) >= size and (ev.get(group) != cur[-1].get(group) or not ev.get(group)):
                 shards.append(cur)
                 cur = []
             cur.append(ev)
